@@ -176,6 +176,9 @@ def make_service(B, sname, mspecs, rec, extra=None):
                   "_out_variable_name", "_out_variable_names", "_port_type"):
             if m.get(k) is not None:
                 kw[k] = m[k]
+        if m.get("wire"):
+            # the documented decorator option that renames arguments on the wire
+            kw["_in_arg_names"] = dict(m["wire"])
         if m.get("in_header"):
             kw["_in_header"] = tuple(B.classes[n] for n in m["in_header"])
         if m.get("out_header"):
